@@ -42,12 +42,11 @@ func (n *node[K, V]) find(compareFunc func(a, b K) int, key K) *node[K, V] {
 	case result > 0:
 		return n.right.find(compareFunc, key)
 	default:
-		// Always return the left-most one in the case of multiple matches
-		cur := n
-		for cur.left != nil && compareFunc(key, cur.left.key) == 0 {
-			cur = cur.left
+		// Always return the first one in traversal order in the case of multiple matches
+		if found := n.left.find(compareFunc, key); found != nil {
+			return found
 		}
-		return cur
+		return n
 	}
 }
 
